@@ -24,6 +24,10 @@ type fault struct {
 	Text  string // LF line ends; ends with "\n"
 	Line  int    // 0-based line inside Text on which the diagnostic must be reported
 	Span  int    // the faulty construct itself spans Line..Line+Span: any of these lines is accepted
+	// Lines [0,UseFrom) of Text are declarations (classes, functions) that stay at top level;
+	// lines [UseFrom,…) are plain statements that a wrapper may move into a function / method /
+	// closure body that is called from another line.
+	UseFrom int
 	Nonce string // text that the diagnostic's message must contain ("" = learn from baseline)
 	Parse bool   // a parse-time fault (nothing runs)
 	AtEOF bool   // the fault is the last thing in the file and is detected at end of input:
@@ -35,6 +39,7 @@ type program struct {
 	CRLF    bool
 	Shebang bool // "#!..." first line (php mode only)
 	Include bool // the program is require'd from a one-line main file; the diagnostic must name the included file
+	Wrap    string // "" | func | method | static | closure | nested: where the fault's statements run (runtime faults only)
 	Head    []chunk
 	Fault   *fault
 	Tail    []chunk
@@ -264,10 +269,12 @@ func (g *genState) fault(kind string) *fault {
 		f.Text = fmt.Sprintf("if ($v0 > 0) {\n%s$w = 1;\n%sthrow new Exception(\"%s\");\n}\n", in, in, f.Nonce)
 		f.Line = 2
 	case "throw-in-func":
+		f.UseFrom = 5
 		f.Nonce = "boom-" + n
 		f.Text = fmt.Sprintf("function ff%s($a) {\n%s$b = $a + 1;\n%sthrow new Exception(\"%s\");\n}\nff%s(2);\n", n, in, in, f.Nonce, n)
 		f.Line = 2
 	case "throw-in-method":
+		f.UseFrom = 5
 		f.Nonce = "boom-" + n
 		f.Text = fmt.Sprintf("class KF%s {\n%sfunction m() {\n%s%sthrow new Exception(\"%s\");\n%s}\n}\n$kf = new KF%s();\n$kf->m();\n", n, in, in, in, f.Nonce, in, n)
 		f.Line = 2
@@ -289,10 +296,12 @@ func (g *genState) fault(kind string) *fault {
 		f.Nonce = "noprop_" + n
 		f.Text = fmt.Sprintf("$pi = $v0->%s;\n", f.Nonce)
 	case "undef-method":
+		f.UseFrom = 1
 		f.Nonce = "nomethod_" + n
 		f.Text = fmt.Sprintf("class KU%s { function m() { return 1; } }\n$ku = new KU%s();\n$ku->%s();\n", n, n, f.Nonce)
 		f.Line = 2
 	case "undef-static":
+		f.UseFrom = 1
 		f.Nonce = "nostatic_" + n
 		f.Text = fmt.Sprintf("class KS%s { function m() { return 1; } }\nKS%s::%s();\n", n, n, f.Nonce)
 		f.Line = 1
@@ -336,14 +345,17 @@ func (g *genState) fault(kind string) *fault {
 		f.Nonce = "NoClass" + n
 		f.Text = fmt.Sprintf("$sc = %s::bar();\n", f.Nonce)
 	case "abstract-new":
+		f.UseFrom = 1
 		f.Nonce = "AB" + n
 		f.Text = fmt.Sprintf("abstract class %s { }\n$ab = new %s();\n", f.Nonce, f.Nonce)
 		f.Line = 1
 	case "ctor-throw":
+		f.UseFrom = 5
 		f.Nonce = "boom-" + n
 		f.Text = fmt.Sprintf("class CC%s {\n%sfunction __construct() {\n%s%sthrow new Exception(\"%s\");\n%s}\n}\n$cc = new CC%s();\n", n, in, in, in, f.Nonce, in, n)
 		f.Line = 2
 	case "static-undef-func":
+		f.UseFrom = 5
 		f.Nonce = "nofn_" + n
 		f.Text = fmt.Sprintf("class CS%s {\n%sstatic function s() {\n%s%sreturn %s();\n%s}\n}\nCS%s::s();\n", n, in, in, in, f.Nonce, in, n)
 		f.Line = 2
@@ -359,6 +371,7 @@ func (g *genState) fault(kind string) *fault {
 		f.Nonce = "nofn_" + n
 		f.Text = fmt.Sprintf("$af = fn($x) => %s($x);\n$af(1);\n", f.Nonce)
 	case "prop-type-mismatch":
+		f.UseFrom = 1
 		f.Nonce = "TP" + n
 		f.Text = fmt.Sprintf("class %s { public int $n = 1; }\n$tp = new %s();\n$tp->n = 'str';\n", f.Nonce, f.Nonce)
 		f.Line = 2
@@ -367,6 +380,7 @@ func (g *genState) fault(kind string) *fault {
 		f.Text = fmt.Sprintf("echo $v0\n%s->%s;\n", in, f.Nonce)
 		f.Line, f.Span = 0, 1 // the property fetch `$v0 ⏎ ->name` starts on line 0 and is detected on line 1
 	case "generator-throw":
+		f.UseFrom = 4
 		f.Nonce = "boom-" + n
 		f.Text = fmt.Sprintf("function gen%s() {\n%syield 1;\n%sthrow new Exception(\"%s\");\n}\nforeach (gen%s() as $gv) { }\n", n, in, in, f.Nonce, n)
 		f.Line = 2
@@ -424,8 +438,9 @@ func (p *program) render2() (src string, faultLine, faultLineMax int) {
 		sb.WriteString(c.Text)
 	}
 	if p.Fault != nil {
-		faultLine = strings.Count(sb.String(), "\n") + 1 + p.Fault.Line
-		sb.WriteString(p.Fault.Text)
+		text, line := wrapFault(p.Fault, p.Wrap)
+		faultLine = strings.Count(sb.String(), "\n") + 1 + line
+		sb.WriteString(text)
 	}
 	if p.Fault == nil || !p.Fault.AtEOF {
 		for _, c := range p.Tail {
@@ -444,6 +459,56 @@ func (p *program) render2() (src string, faultLine, faultLineMax int) {
 		src = strings.ReplaceAll(src, "\n", "\r\n")
 	}
 	return
+}
+
+var wrapKinds = []string{"func", "method", "static", "closure", "nested"}
+
+// wrapFault moves the statements of a runtime fault into a body that is called from another
+// line (1 frame; "nested" = closure -> static method -> method, 3 frames). The declarations
+// of the fault stay at top level. Returns the text and the 0-based line of the fault in it.
+// The body is not indented so that heredoc terminators keep their column.
+func wrapFault(f *fault, wrap string) (string, int) {
+	if wrap == "" || f.Parse {
+		return f.Text, f.Line
+	}
+	lines := strings.SplitAfter(f.Text, "\n")
+	if lines[len(lines)-1] == "" {
+		lines = lines[:len(lines)-1]
+	}
+	decl := strings.Join(lines[:f.UseFrom], "")
+	use := strings.Join(lines[f.UseFrom:], "")
+	id := fmt.Sprintf("%x", len(f.Text)*7919+len(f.Nonce)) + strings.Map(func(r rune) rune {
+		if r >= '0' && r <= '9' || r >= 'a' && r <= 'f' {
+			return r
+		}
+		return -1
+	}, f.Nonce)
+	var pre, post string
+	switch wrap {
+	case "func":
+		pre = fmt.Sprintf("function wf_%s($wp) {\n$v0 = 1;\n", id)
+		post = fmt.Sprintf("return 1;\n}\n$wpad = 1;\nwf_%s(2);\n", id)
+	case "method":
+		pre = fmt.Sprintf("class WM_%s {\nfunction m($wp) {\n$v0 = 1;\n", id)
+		post = fmt.Sprintf("return 1;\n}\n}\n$wo = new WM_%s();\n$wpad = 1;\n$wo->m(2);\n", id)
+	case "static":
+		pre = fmt.Sprintf("class WS_%s {\nstatic function s($wp) {\n$v0 = 1;\n", id)
+		post = fmt.Sprintf("return 1;\n}\n}\n$wpad = 1;\nWS_%s::s(2);\n", id)
+	case "closure":
+		pre = "$wc = function ($wp) {\n$v0 = 1;\n"
+		post = "return 1;\n};\n$wpad = 1;\n$wc(2);\n"
+	case "nested":
+		pre = fmt.Sprintf("class WN_%s {\nfunction m($wp) {\n$v0 = 1;\n", id)
+		post = fmt.Sprintf("return 1;\n}\nstatic function s($wp) {\n$wo = new WN_%s();\nreturn $wo->m($wp);\n}\n}\n"+
+			"function wn_%s($wp) {\n$wc = function ($wq) {\nreturn WN_%s::s($wq);\n};\nreturn $wc($wp);\n}\n$wpad = 1;\nwn_%s(2);\n", id, id, id, id)
+	default:
+		panic("unknown wrapper " + wrap)
+	}
+	line := f.Line
+	if f.Line >= f.UseFrom {
+		line += strings.Count(pre, "\n")
+	}
+	return decl + pre + use + post, line
 }
 
 func (p *program) kinds() []string {
@@ -477,6 +542,9 @@ func genProgram(r *rand.Rand, withFault bool, q quarantine) *program {
 		}
 		p.Fault = g.fault(k)
 		p.Include = r.Intn(6) == 0
+		if !p.Fault.Parse && r.Intn(5) < 3 {
+			p.Wrap = wrapKinds[r.Intn(len(wrapKinds))]
+		}
 	}
 	p.Tail = g.randomChunks(r.Intn(3))
 	return p
